@@ -546,7 +546,9 @@ fn supervisor(spec: &Spec, a: &Args) -> ! {
         c.spawn().expect("spawn worker")
     };
     let mut children: Vec<(u64, std::process::Child)> = (0..jobs).map(|i| (i, spawn(i, false))).collect();
-    let hard_limit = Duration::from_secs_f64(a.time_limit * 3.0 + 120.0);
+    // workers stop by themselves at the time limit (between cases); the watchdog only ends a worker that is stuck
+    // inside one case. Its firing is never a verdict by itself (inconclusive unless the re-run confirms a death).
+    let hard_limit = Duration::from_secs_f64(a.time_limit * 1.5 + 90.0);
     let mut statuses: BTreeMap<u64, Option<std::process::ExitStatus>> = BTreeMap::new();
     let mut stderrs: BTreeMap<u64, String> = BTreeMap::new();
     // wait with watchdog
@@ -666,23 +668,43 @@ fn supervisor(spec: &Spec, a: &Args) -> ! {
     // a dead worker: re-run that shard in trace mode to find the case that kills the process
     let mut crash_reports: Vec<Value> = vec![];
     let mut harness_errors: Vec<String> = vec![];
-    for (i, why) in &dead {
-        let mut ch = spawn(*i, true);
-        let deadline = Instant::now() + hard_limit;
-        let st = loop {
-            match ch.try_wait() {
-                Ok(Some(st)) => break Some(st),
-                Ok(None) => {
-                    if Instant::now() > deadline {
-                        let _ = ch.kill();
-                        let _ = ch.wait();
-                        break None;
-                    }
-                    std::thread::sleep(Duration::from_millis(20));
-                }
-                Err(_) => break None,
+    // (all dead shards are re-run at the same time; a re-run reaches the fatal case no later than the first run did)
+    let mut reruns: Vec<(u64, String, std::process::Child)> = dead.iter().map(|(i, why)| (*i, why.clone(), spawn(*i, true))).collect();
+    let deadline = Instant::now() + Duration::from_secs_f64(a.time_limit + 90.0);
+    let mut rerun_status: BTreeMap<u64, Option<std::process::ExitStatus>> = BTreeMap::new();
+    loop {
+        let mut all = true;
+        for (i, _, ch) in reruns.iter_mut() {
+            if rerun_status.contains_key(i) {
+                continue;
             }
-        };
+            match ch.try_wait() {
+                Ok(Some(st)) => {
+                    rerun_status.insert(*i, Some(st));
+                }
+                Ok(None) => all = false,
+                Err(_) => {
+                    rerun_status.insert(*i, None);
+                }
+            }
+        }
+        if all {
+            break;
+        }
+        if Instant::now() > deadline {
+            for (i, _, ch) in reruns.iter_mut() {
+                if !rerun_status.contains_key(i) {
+                    let _ = ch.kill();
+                    let _ = ch.wait();
+                    rerun_status.insert(*i, None);
+                }
+            }
+            break;
+        }
+        std::thread::sleep(Duration::from_millis(20));
+    }
+    for (i, why) in &dead {
+        let st = rerun_status.get(i).cloned().flatten();
         let idx = std::fs::read_to_string(tmp.join(format!("trace{}.txt", i))).ok().and_then(|s| s.trim().parse::<u64>().ok());
         match (st, idx) {
             (Some(s), _) if s.success() => harness_errors.push(format!("shard {} died ({}) but succeeded when re-run: not reproducible", i, why)),
